@@ -103,6 +103,10 @@ func buildC01(tier string, seed int64) *Family {
 			}
 		}
 	}
+	for _, x := range []string{"descendant::a/descendant::*", "descendant::a/descendant-or-self::*", "descendant-or-self::a/descendant::b", "descendant::*/descendant::a", "descendant::a//*",
+		"descendant-or-self::a//a", "descendant::a/descendant::a/descendant::*"} {
+		add(x, cfg5)
+	}
 	for _, x := range []string{"//@a/..//b", "//@a/..//*", "//@*/../descendant::a", "descendant::a/@a/..//*", "//a/@a/../descendant::*"} {
 		add(x, cfg)
 	}
